@@ -485,3 +485,5 @@ def check(run, prog):
     rule_macro_removal(run, prog)            # R-14.6
     from .c14_macro_removal import rule_macro_lookup
     rule_macro_lookup(run, prog)             # R-14.7
+    from .c14_after_endif import rule_after_endif
+    rule_after_endif(run, prog)              # R-14.8
